@@ -46,6 +46,8 @@ def _invalid_data(kind, spec, cfg, data):
     y = None if y is None else y.copy()
     w = None if w is None else w.copy()
     n = X.shape[0]
+    if kind in ("nan-X", "inf-X") and X.dtype.kind != "f":
+        X = X.astype(numpy.float64)  # integer features cannot hold NaN / inf
     if kind == "nan-X":
         X[n // 2, 0] = numpy.nan
     elif kind == "inf-X":
